@@ -197,7 +197,7 @@ def query_mix(ev, N, m, lo, up, tag):
 
 
 VIA_PAIRS = [(v, b) for v in ("B0", "B1", "B2", "B3") for b in ("B0", "B1", "B2", "B3") if v != b] + \
-            [("Z", b) for b in ("B1", "B2", "D")]      # built from Python ints, then re-configured with fractional bounds
+            [("Z", b) for b in ("B1", "B2", "D")] + [("B1", "Zh"), ("Z", "Zh")]      # built from Python ints, then re-configured with fractional bounds
 
 
 def x_of_prefix(N, p):
